@@ -804,7 +804,7 @@ def estimate_symbolic_duration(
                 normal_notes += 1
             return {
                 "type": type,
-                "actual_notes": math.ceil(normal_notes * STRAIGHT_DURS[i + 1] / qdur),
+                "actual_notes": int(round(normal_notes * STRAIGHT_DURS[i + 1] / qdur)),
                 "normal_notes": normal_notes,
             }
 
